@@ -103,7 +103,7 @@ def gen(seed: int, i: int, tier: str) -> dict:
                 ops.append(["line", f"{rng.choice([1, 2])};0;1;0;2;{G.payload(rng)}\n"])
         return {"cfg": {"pin": proto}, "kind": "1x", "ops": ops}
     proto = rng.choice(G.PROTOS_2X)
-    nodes = rng.sample([1, 2, 3, 9, 254], rng.randint(1, 3))
+    nodes = rng.sample([0, 1, 2, 3, 9, 254], rng.randint(1, 3))
     children = rng.sample([0, 1, 7, 254], rng.randint(1, 2))
     types = rng.sample([2, 3, 24, 47], rng.randint(1, 2))
     ops = _setup(proto, nodes, children)
